@@ -56,7 +56,7 @@ class LoadFamily:
                     wf = flow.strip_ids(wf, rng)
             models.append(wf)
         N = rng.choice(opts.get('ns') or [2, 4, 8])
-        cap = rng.choice([1, 2, 4, N, 1024, 1024])
+        cap = rng.choice(opts.get('caps') or [1, 2, 4, N, 1024, 1024])
         workers = rng.choice([1, 2, 4, 8])
         items = []
         for i in range(N):
@@ -69,11 +69,11 @@ class LoadFamily:
         storm = rng.random() < opts.get('storm', 0.35)
         if storm:
             # further starts of p0 arrive from their own threads while the first one is being launched
-            starts_op['dups'] = [{'mid': items[0]['mid'], 'vars': dict(items[0]['vars']), 'delay_us': rng.choice([0, 20, 50, 100, 200, 400, 800])} for _ in range(rng.randint(2, 6))]
+            starts_op['dups'] = [{'mid': items[0]['mid'], 'vars': dict(items[0]['vars']), 'delay_us': rng.randint(0, rng.choice([300, 1000]))} for _ in range(rng.randint(6, 10))]
         ops = [starts_op] + ([] if immediate else [{'op': 'quiesce'}]) + [{'op': 'start', 'mid': items[0]['mid'], 'vars': dict(items[0]['vars'])}, {'op': 'run'}, {'op': 'snapshot', 'level': 'rows'}]
         rt = {'flavor': 'multi', 'workers': workers, 'chaos': {'max_yields': 3, 'seed': rng.randrange(1, 1 << 40)}}
         if storm:
-            rt['chaos']['pause_us'] = rng.choice([100, 300, 600])
+            rt['chaos']['pause_us'] = rng.choice([30, 100, 300])
         L = {'id': '', 'family': 'load', 'sched': f'N{N}-cap{cap}-w{workers}-{mode}', 'seed': rng.randrange(1 << 30), 'runtime': rt, 'engine': {'store': 'mem', 'keep_processes': True, 'cache_cap': cap},
              'models': [json.dumps(m) for m in models], 'responder': {'mode': mode, 'order': 'seeded', 'rules': rules, 'max_rounds': 100000}, 'ops': ops, 'watchdog_ms': 90000}
         solos = []
@@ -107,7 +107,7 @@ class LoadFamily:
             if accepted > 1:
                 out.append(V('C13', 'duplicate-pid-accepted', 'during-launch', f"{accepted} of {len(storm) + 1} concurrent starts with the pid p0 were accepted", scenario=sc['id']))
             if accepted >= 1 and not starts[0]['ok']:
-                starts[0] = dict(starts[0], ok=True)     # one of the other starts of p0 won: p0 runs all the same
+                starts = [dict(starts[0], ok=True)] + list(starts[1:])     # one of the other starts of p0 won: p0 runs all the same
         dup_ok = bool(dup and dup[0]['res']['ok'] and starts[0]['ok'])
         if dup_ok:
             first_root = next((e['seq'] for e in L.creates if e['pid'] == 'p0'), 1 << 62)
